@@ -168,8 +168,13 @@ theorem schedule_rt (c : Schedule) : scheduleFromPb (scheduleToPb c) = c := by
   obtain ‚ü®a, b, c, d, e, f, g, tz‚ü© := c
   simp [scheduleFromPb, scheduleToPb, opt_rt dayToPb dayFromPb day_rt]
 
-theorem ratelimiter_rt (r : Ratelimiter) : ratelimiterFromPb (ratelimiterToPb r) = r := by
-  cases r <;> simp [ratelimiterFromPb, ratelimiterToPb]
+theorem ratelimiter_rt (est : Nat) (r : Ratelimiter) (h : r.EstIs est) :
+    ratelimiterFromPb est (ratelimiterToPb r) = r := by
+  cases r with
+  | global => simp [ratelimiterFromPb, ratelimiterToPb]
+  | default sn rps e =>
+    simp only [Ratelimiter.EstIs] at h
+    simp [ratelimiterFromPb, ratelimiterToPb, h]
 
 theorem duration_rt (d : Int) : durationFromPb (durationToPb d) = d := by
   simp only [durationFromPb, durationToPb]
@@ -180,10 +185,12 @@ theorem device_rt (d : Device) (h : CanonAuth d.auth) (hl : d.linked.WF) (hd : ‚
   obtain ‚ü®a, id, l, n, hu, de, f‚ü© := d
   simp only [deviceFromPb, deviceToPb, addr_rt l hl, addrs_rt de hd, auth_rt a h]
 
-theorem profile_rt (p : Profile) (h : BmWF p.blockingMode) : profileFromPb (profileToPb p) = some p := by
+theorem profile_rt (est : Nat) (p : Profile) (h : BmWF p.blockingMode) (he : p.ratelimiter.EstIs est) :
+    profileFromPb est (profileToPb p) = some p := by
   cases p
   simp only [profileFromPb, profileToPb, bm_rt _ h]
-  simp [ratelimiter_rt, duration_rt, opt_rt scheduleToPb scheduleFromPb schedule_rt]
+  simp only at he
+  simp [ratelimiter_rt est _ he, duration_rt, opt_rt scheduleToPb scheduleFromPb schedule_rt]
 
 /-! ### Write-then-rename -/
 
